@@ -73,6 +73,9 @@ Theorem C10_ok_a_model : forall reg f v, has_type reg f v ->
   match model_a reg f hb with (acc, strict, same) => verdict_a reg f hb acc strict same = 0%N end.
 Proof. exact model_ok_a. Qed.
 
+Theorem C10_ok_c_model : forall reg f v rest, has_type reg f v -> verdict_c reg f (encode reg f v ++ rest) true = 0%N.
+Proof. exact model_ok_c. Qed.
+
 (* ... and a passing verdict on Rust-written bytes certifies them *)
 Theorem C10_verdict_b_sound : forall reg f b,
   verdict_b reg f b = 0%N -> exists v, has_type reg f v /\ b = encode reg f v.
